@@ -82,6 +82,15 @@ CHECKS.update({
             "Twin run: node A with 2 KiB..1 MiB signature/script-execution caches, node B with minimum tables that are additionally flooded with junk before every call, same seeded operation sequence (new/variant/replayed-signature transactions of ten script kinds incl. policy-only-invalid ones, test-accept, submit, blocks built from the mempool with TestBlockValidity 0-2 times before delivery, reorgs, invalidate/reconsider, CSV activating mid-history so the consensus flag set changes while results are cached): every verdict and reject reason of A equals B's and the model's, mempools and tips equal, no script-invalid transaction or block is ever accepted.",
             "Different spent outputs for one wtxid (needs BIP30 duplicates) is not generated; parallel script checking is C14's business.",
             CHAIN_TECH + "; twin node without effective caches as oracle", "DESIGN.md §5 C13"),
+    "C26": ("nodesim/mempool-rbf", "exploration",
+            "MempoolSim histories biased to replacements plus four scenario ops (multi-conflict replacement with fees at threshold -1/0/+1, TRUC sibling eviction, package RBF, conflicts with 97-103 clusters); for every accepted single transaction or package that conflicted with the pre-call snapshot the statement's rules are re-derived naively from before/after snapshots: evicted set = direct conflicts (+ TRUC sibling) closed under descendants = reported replaced list, nothing else left the mempool, fees >= modified fees of the evicted set + incremental relay fee for own size, no input spends an evicted output, <= 100 conflicting clusters, feerate diagram strictly improves (own exact-rational comparison); reverse check: a rejection for 'insufficient fee' must really be below the threshold.",
+            "Whole-mempool diagrams are compared (the node compares affected clusters only), cut where cumulative fee starts to fall; test-accept acceptances get only the fee/spend/cluster clauses.",
+            "deterministic simulation: real node + mempool under seeded replacement histories; oracle = naive recomputation from mempool snapshots before/after each submission",
+            "DESIGN.md §5 C26"),
+    "C53": ("nodesim/versionbits", "exploration",
+            "Real node with per-run TESTDUMMY BIP9 parameters (start/timeout/min_activation_height incl. ALWAYS/NEVER) and seeded block trees of 4-8 periods: signalling counts 107/108/109, period-end MTP aimed at start/timeout -1/0/+1, forks inside periods, reorgs across boundaries, clean restarts (cold cache), cache clears, invalidateblock; every sampled block is answered through the node's warm cache, a fresh cache, a run-long private cache and a raw condition checker: all must agree with each other (query-order independence) and with an independent BIP9 model recomputed from genesis over the reference tree (state, next state, since, statistics, active_since); same state within a period; ACTIVE/FAILED absorbing. A second per-run deployment with period 1-200 / threshold 0..period goes through a raw checker.",
+            "Timestamps are constrained by what the node indexes (time > MTP(parent)); other periods than 144/108 only through the raw-checker path; cache concurrency not explored.",
+            CHAIN_TECH + "; independent BIP9 model", "DESIGN.md §5 C53"),
     "C38": ("compsim/cmpctblock", "exploration",
             "Real PartiallyDownloadedBlock/CBlockHeaderAndShortTxIDs/BlockTransactionsRequest (every message round-tripped through its wire codec) against a standalone mempool and extra-transaction ring churned by seeded ops, an adversarial announcer (prefilled-index games, tx-list lies incl. CVE-2012-2459 tail duplication, duplicate/decoy/random short ids) and an adversarial responder (wrong/reordered/short/long blocktxn); FillBlock == OK implies exactly the announced header and transaction list, merkle-unmutated, witness commitment intact; an honest announcement + honest response of a well-formed block must reconstruct.",
             "Component level only: the in-situ clause (block stored under hash H at a real node) is not decided here. Real 48-bit short-id collisions are reached through one offline-searched fixture (two pool transactions colliding under a fixed block key); collisions involving a block transaction are out of reach.",
